@@ -138,11 +138,24 @@ MUTANTS += [
 MUTANTS += [
     # ---- C11
     ("c11_parity_regression", "C11", "solver.py", "    if (nxe - nlx) % 2 or (nye - nly) % 2:\n", "    if False:\n"),
-    ("c11_dlx_plus_one", "C11", "solver.py", "    dlx, dly = (nxe - nlx) // 2, (nye - nly) // 2\n", "    dlx, dly = (nxe - nlx + 1) // 2, (nye - nly) // 2\n"),
+    ("c11_dlx_plus_one", "C11", "solver.py", "    dlx, dly = (nxe - nlx) // 2, (nye - nly) // 2\n", "    dlx, dly = (nxe - nlx) // 2, (nxe - nly) // 2\n"),
     ("c11_crop_unpadded", "C11", "solver.py", "    flx = q[:, py : nye - py, px : nxe - px]\n", "    flx = q[:, 0:ny, 0:nx]\n"),
     ("c11_linspace_endpoint", "C11", "solver.py", "    x = np.linspace(0, xmx, nx, endpoint=False)\n", "    x = np.linspace(0, xmx, nx, endpoint=True)\n"),
     ("c11_clamp_to_unpadded", "C11", "solver.py", "    if (nlx > nxe) or (nly > nye):\n", "    if (nlx > nx) or (nly > ny):\n"),
     ("c11_clamp_sets_unpadded", "C11", "solver.py", "        nlx, nly = nxe, nye\n", "        nlx, nly = nxe - 2 * (px > 0), nye\n"),
     ("c11_lowpass_damped", "C11", "solver.py", "        tfftq0 = fftq0[dly : nye - dly, dlx : nxe - dlx]\n", "        tfftq0 = fftq0[dly : nye - dly, dlx : nxe - dlx] * (1.0 - 1e-6 * dlx)\n"),
     ("c11_y_from_xmx", "C11", "solver.py", "    y = np.linspace(0, ymx, ny, endpoint=False)\n", "    y = np.linspace(0, xmx, ny, endpoint=False)\n"),
+]
+
+MUTANTS += [
+    # ---- C05
+    ("c05_sign_regression", "C05", "solver.py", "b = -Kzinv * dzi + 1.0 / 6.0 * Kzinv**2 * Ti * dzi**3", "b = -Kzinv * dzi - 1.0 / 6.0 * Kzinv**2 * Ti * dzi**3"),
+    ("c05_c_half", "C05", "solver.py", "c = Ti * dzi - 1.0 / 6.0 * Kzinv * Ti**2 * dzi**3", "c = Ti * dzi - 1.0 / 2.0 * Kzinv * Ti**2 * dzi**3"),
+    ("c05_drop_cubic", "C05", "solver.py", "c = Ti * dzi - 1.0 / 6.0 * Kzinv * Ti**2 * dzi**3", "c = Ti * dzi"),
+    ("c05_exp_plus", "C05", "solver.py", "np.exp(-eigval * h[:, np.newaxis])", "np.exp(eigval * h[:, np.newaxis])"),
+    ("c05_Kzinv_eigval2", "C05", "solver.py", "        tfftp[:, msk] = tfftq[:, msk] * Kzinv / eigval\n", "        tfftp[:, msk] = tfftq[:, msk] * Kzinv / eigval**2\n"),
+    ("c05_a_quarter", "C05", "solver.py", "        a = 1.0 - 0.5 * Kzinv * Ti * dzi**2\n", "        a = 1.0 - 0.25 * Kzinv * Ti * dzi**2\n"),
+    ("c05_analytic_mean_sign", "C05", "solver.py", "        tfftp[:, 0, 0] = p000 - tfftq0[0, 0] * Kzinv * h\n", "        tfftp[:, 0, 0] = p000 + tfftq0[0, 0] * Kzinv * h\n"),
+    ("c05_analytic_uses_Kx", "C05", "solver.py", "        tfftp[:, msk] = tfftq[:, msk] * Kzinv / eigval\n", "        tfftp[:, msk] = tfftq[:, msk] / Kx[nz - 1] / eigval\n"),
+    ("c05_analytic_no_shift", "C05", "solver.py", "    # shift green function in Fourier space to measurement point\n    if footprint:\n", "    # shift green function in Fourier space to measurement point\n    if footprint and not analytic:\n"),
 ]
